@@ -116,18 +116,29 @@ def foreign_toy(t):
     raise LookupError("no foreign toy curve")
 
 
+def _field_key(v):
+    if isinstance(v, bool) or v is None:
+        return v
+    if isinstance(v, int):
+        return int(v)
+    if isinstance(v, (tuple, list)):
+        if all(isinstance(x, int) for x in v):
+            return tuple(int(x) for x in v)
+        return (type(v).__name__, len(v), hash(repr(v)))
+    if isinstance(v, (bytes, str)):
+        return v
+    return type(v).__name__
+
+
 def point_key(ec, o):
+    """every field of the object, generically (no attribute names are
+    assumed: a refactoring that renames or splits fields still gets a
+    faithful - possibly finer - key)"""
     if o is ec.INFINITY:
         return ("INF",)
-    d = vars(o)
-    if isinstance(o, ec.PointJacobi):
-        return ("J", tuple(int(c) for c in d["_PointJacobi__coords"]),
-                len(d["_PointJacobi__precompute"]),
-                bool(d["_PointJacobi__generator"]),
-                d["_PointJacobi__order"] and int(d["_PointJacobi__order"]))
-    return ("A", d["_Point__x"] and int(d["_Point__x"]),
-            d["_Point__y"] and int(d["_Point__y"]),
-            d["_Point__order"] and int(d["_Point__order"]))
+    return (type(o).__name__,) + tuple(
+        (k, _field_key(v)) for k, v in sorted(vars(o).items())
+        if not k.endswith("__curve"))
 
 
 def canon(pool):
